@@ -56,6 +56,17 @@ func (pq *clientPacketQueue) addToQueue(header *parser.PacketHeader, v []any) {
 	}
 
 	replacementAck := func(args []reflect.Value) (results []reflect.Value) {
+		// The packet may have been sent more than once (a reconnection sends the pending packet again):
+		// only the first outcome of a packet that is still at the head of the queue counts. The ack
+		// of another attempt of a packet that has already been acknowledged or discarded is ignored.
+		pq.mu.Lock()
+		current := len(pq.queuedPackets) > 0 && pq.queuedPackets[0] == packet
+		pq.mu.Unlock()
+		if !current {
+			pq.debug.Log("Packet with ID", packet.id, "has already been dealt with")
+			return nil
+		}
+
 		errV := args[0]
 		hasError := !errV.IsNil()
 
